@@ -1,5 +1,8 @@
 //go:build verif
 
+// Driver for C20: runs the real header formatter/parser (appendEntry, parseHeaders), Encode/Decode and the stream
+// Decoder (default and stressed limits) on generated inputs and prints the observed behaviour as Coq terms of type
+// V.models.AssertCodec.case.
 package asserts
 
 import (
@@ -7,49 +10,634 @@ import (
 	"crypto/rand"
 	"crypto/rsa"
 	"fmt"
+	"io"
+	"sort"
+	"strconv"
+	"strings"
 	"testing"
+	"time"
+
+	"github.com/snapcore/snapd/zzverif/vh"
 )
 
-func c20try(name string, f func()) {
-	defer func() {
-		if r := recover(); r != nil {
-			fmt.Printf("%s: PANIC %v\n", name, r)
-		}
-	}()
-	f()
+// ---------------------------------------------------------------- inputs
+
+type c20Val struct {
+	K string            `json:"k"` // s | l | m
+	S string            `json:"s,omitempty"`
+	L []c20Val          `json:"l,omitempty"`
+	M map[string]c20Val `json:"m,omitempty"`
 }
 
-func TestVerifC20Probe(t *testing.T) {
-	rk, _ := rsa.GenerateKey(rand.Reader, 752)
-	pk := RSAPrivateKey(rk)
-	c20try("neg body-length stream", func() {
-		d := NewDecoder(bytes.NewBufferString("type: test-only\nauthority-id: a\nprimary-key: k\nbody-length: -100000\nsign-key-sha3-384: x\n\nAXNpZw=="))
-		a, err := d.Decode()
-		fmt.Println("neg:", a, err)
-	})
-	for _, h := range []map[string]interface{}{
-		{"authority-id": "a", "primary-key": "k", "foo": []interface{}{[]interface{}{}}},
-		{"authority-id": "a", "primary-key": "k", "foo": []interface{}{"a", []interface{}{}}},
-		{"authority-id": "a", "primary-key": "k", "foo": map[string]interface{}{"A b": "x"}},
-		{"authority-id": "a", "primary-key": "k", "Foo": "x"},
-		{"authority-id": "a", "primary-key": "k", "foo": "\xff"},
-		{"authority-id": "a", "primary-key": "k", "foo": "a\n\nb\n"},
-		{"authority-id": "a", "primary-key": "k", "foo": []interface{}{"a\nb", map[string]interface{}{"x": "y\n", "z": []interface{}{"q"}}}},
-	} {
-		h := h
-		c20try("sign", func() {
-			a, err := assembleAndSign(TestOnlyType, h, nil, pk)
-			if err != nil {
-				fmt.Println("sign err:", err)
+type c20In struct {
+	Kind   string            `json:"kind"` // fmt | parse | codec | decode | stream
+	V      *c20Val           `json:"v,omitempty"`
+	Head   []byte            `json:"head,omitempty"`
+	Type   string            `json:"type,omitempty"`
+	H      map[string]c20Val `json:"h,omitempty"`
+	Body   []byte            `json:"body,omitempty"`
+	Enc    []byte            `json:"enc,omitempty"`
+	Lim    []int             `json:"lim,omitempty"` // buf, headers, body, sig
+	Stream []byte            `json:"stream,omitempty"`
+	Tag    string            `json:"tag,omitempty"`
+}
+
+func (v c20Val) iface() interface{} {
+	switch v.K {
+	case "s":
+		return v.S
+	case "l":
+		l := make([]interface{}, len(v.L))
+		for i, e := range v.L {
+			l[i] = e.iface()
+		}
+		return l
+	case "m":
+		m := make(map[string]interface{}, len(v.M))
+		for k, e := range v.M {
+			m[k] = e.iface()
+		}
+		return m
+	}
+	panic("bad value kind " + v.K)
+}
+
+func c20Headers(h map[string]c20Val) map[string]interface{} {
+	m := make(map[string]interface{}, len(h))
+	for k, e := range h {
+		m[k] = e.iface()
+	}
+	return m
+}
+
+// ---------------------------------------------------------------- Coq printing
+
+func c20Bytes(s string) string {
+	if len(s) == 0 {
+		return "[]"
+	}
+	var parts []string
+	i := 0
+	for i < len(s) {
+		j := i
+		printable := func(c byte) bool { return c >= 0x20 && c <= 0x7e && c != '"' }
+		if printable(s[i]) {
+			for j < len(s) && printable(s[j]) {
+				j++
+			}
+			parts = append(parts, `bs "`+s[i:j]+`"`)
+		} else {
+			var nums []string
+			for j < len(s) && !printable(s[j]) {
+				nums = append(nums, strconv.Itoa(int(s[j])))
+				j++
+			}
+			parts = append(parts, "["+strings.Join(nums, ";")+"]%N")
+		}
+		i = j
+	}
+	return "(" + strings.Join(parts, " ++ ") + ")"
+}
+
+func c20Lines(ls []string) string {
+	items := make([]string, len(ls))
+	for i, l := range ls {
+		items[i] = c20Bytes(l)
+	}
+	return "[" + strings.Join(items, "; ") + "]"
+}
+
+func c20HV(v interface{}) string {
+	switch x := v.(type) {
+	case string:
+		return "(Str " + c20Lines(strings.Split(x, "\n")) + ")"
+	case []interface{}:
+		items := make([]string, len(x))
+		for i, e := range x {
+			items[i] = c20HV(e)
+		}
+		return "(Lst [" + strings.Join(items, "; ") + "])"
+	case map[string]interface{}:
+		return "(Map " + c20Map(x) + ")"
+	}
+	panic(fmt.Sprintf("unexpected header value %T", v))
+}
+
+func c20Map(m map[string]interface{}) string {
+	keys := make([]string, 0, len(m))
+	for k := range m {
+		keys = append(keys, k)
+	}
+	sort.Strings(keys)
+	items := make([]string, len(keys))
+	for i, k := range keys {
+		items[i] = "(" + c20Bytes(k) + ", " + c20HV(m[k]) + ")"
+	}
+	return "[" + strings.Join(items, "; ") + "]"
+}
+
+// ---------------------------------------------------------------- running with panic recovery and a time bound
+
+const c20TimeBound = 20 * time.Second
+
+// c20Guard runs f; reports whether it panicked or did not return within the time bound
+func c20Guard(f func()) (panicked, timedOut bool) {
+	done := make(chan bool, 1)
+	go func() {
+		defer func() {
+			if r := recover(); r != nil {
+				done <- true
 				return
 			}
-			enc := Encode(a)
-			b, err := Decode(enc)
-			if err != nil {
-				fmt.Printf("decode err: %v\n%s\n", err, enc[:120])
-				return
-			}
-			fmt.Printf("ok %v -> %v\n", a.Header("foo"), b.Header("foo"))
-		})
+			done <- false
+		}()
+		f()
+	}()
+	select {
+	case p := <-done:
+		return p, false
+	case <-time.After(c20TimeBound):
+		return false, true
 	}
 }
+
+type c20Res struct {
+	Kind    string                 `json:"kind"` // ok | err | eof | panic | timeout
+	Headers map[string]interface{} `json:"headers,omitempty"`
+	Body    string                 `json:"body,omitempty"`
+	Sig     string                 `json:"sig,omitempty"`
+}
+
+func (r c20Res) coq() string {
+	switch r.Kind {
+	case "ok":
+		return "(OOk " + c20Map(r.Headers) + " " + c20Bytes(r.Body) + " " + c20Bytes(r.Sig) + ")"
+	case "eof":
+		return "OEof"
+	case "panic", "timeout":
+		return "OPanic"
+	}
+	return "OErr"
+}
+
+func c20Call(f func() (Assertion, error)) c20Res {
+	var a Assertion
+	var err error
+	p, t := c20Guard(func() { a, err = f() })
+	switch {
+	case t:
+		return c20Res{Kind: "timeout"}
+	case p:
+		return c20Res{Kind: "panic"}
+	case err == io.EOF:
+		return c20Res{Kind: "eof"}
+	case err != nil:
+		return c20Res{Kind: "err"}
+	}
+	_, sig := a.Signature()
+	return c20Res{Kind: "ok", Headers: a.Headers(), Body: string(a.Body()), Sig: string(sig)}
+}
+
+var c20Key PrivateKey
+
+func c20PrivKey() PrivateKey {
+	if c20Key == nil {
+		rk, err := rsa.GenerateKey(rand.Reader, 752)
+		if err != nil {
+			panic(err)
+		}
+		c20Key = RSAPrivateKey(rk)
+	}
+	return c20Key
+}
+
+func c20Type(name string) *AssertionType {
+	t := Type(name)
+	if t == nil {
+		panic("unknown type " + name)
+	}
+	return t
+}
+
+func c20Sign(typ string, h map[string]c20Val, body []byte) (Assertion, error) {
+	if len(body) == 0 {
+		body = nil
+	}
+	return assembleAndSign(c20Type(typ), c20Headers(h), body, c20PrivKey())
+}
+
+// ---------------------------------------------------------------- exec
+
+func c20Exec(i c20In) vh.Out {
+	switch i.Kind {
+	case "fmt":
+		v := i.V.iface()
+		var buf bytes.Buffer
+		appendEntry(&buf, "h:", v, 0)
+		lines := strings.Split(buf.String(), "\n")[1:]
+		tag := "fmt-" + i.V.K
+		return vh.Out{Observed: map[string]interface{}{"lines": lines}, Coq: "(CFmt " + c20HV(v) + " " + c20Lines(lines) + ")",
+			NonTrivial: len(lines) > 1, Tags: []string{tag}}
+	case "parse":
+		var h map[string]interface{}
+		var err error
+		p, t := c20Guard(func() { h, err = parseHeaders(i.Head) })
+		res, tag := "", ""
+		switch {
+		case p || t:
+			res, tag = "PPanic", "parse-panic"
+		case err != nil:
+			res, tag = "PErr", "parse-rejected"
+		default:
+			res, tag = "(POk "+c20Map(h)+")", "parse-accepted"
+		}
+		tags := []string{tag}
+		if i.Tag != "" {
+			tags = append(tags, i.Tag)
+		}
+		return vh.Out{Observed: map[string]interface{}{"result": tag, "headers": h}, Coq: "(CParse " + c20Bytes(string(i.Head)) + " " + res + ")",
+			NonTrivial: err == nil && !p && !t, Tags: tags}
+	case "codec":
+		a, err := c20Sign(i.Type, i.H, i.Body)
+		if err != nil {
+			// the generator aims at signable inputs; a refusal to sign is outside the property
+			return vh.Out{Observed: map[string]interface{}{"sign-error": err.Error()}, Coq: "(CDecode [] OErr false)", Tags: []string{"codec-sign-refused"}}
+		}
+		_, sig := a.Signature()
+		enc := Encode(a)
+		dec := c20Call(func() (Assertion, error) { return Decode(enc) })
+		sdec := c20Call(func() (Assertion, error) { return NewDecoder(bytes.NewReader(enc)).Decode() })
+		timeout := dec.Kind == "timeout" || sdec.Kind == "timeout"
+		same := dec.Kind == "ok" && sdec.Kind == "ok"
+		coq := "(CCodec " + c20Map(a.Headers()) + " " + c20Bytes(string(a.Body())) + " " + c20Bytes(string(sig)) + " " + c20Bytes(string(enc)) +
+			" " + dec.coq() + " " + sdec.coq() + " " + vh.CoqBool(timeout) + ")"
+		tags := []string{"codec-" + i.Type, "codec-decoded-" + dec.Kind}
+		if i.Tag != "" {
+			tags = append(tags, i.Tag)
+		}
+		if len(i.Body) > 0 {
+			tags = append(tags, "codec-with-body")
+		}
+		return vh.Out{Observed: map[string]interface{}{"decode": dec, "stream": sdec}, Coq: coq, NonTrivial: same, Tags: tags}
+	case "decode":
+		dec := c20Call(func() (Assertion, error) { return Decode(i.Enc) })
+		coq := "(CDecode " + c20Bytes(string(i.Enc)) + " " + dec.coq() + " " + vh.CoqBool(dec.Kind == "timeout") + ")"
+		tags := []string{"decode-" + dec.Kind}
+		if i.Tag != "" {
+			tags = append(tags, i.Tag)
+		}
+		return vh.Out{Observed: map[string]interface{}{"decode": dec}, Coq: coq, NonTrivial: dec.Kind == "ok", Tags: tags}
+	case "stream":
+		d := NewDecoderStressed(bytes.NewReader(i.Stream), i.Lim[0], i.Lim[1], i.Lim[2], i.Lim[3])
+		var results []c20Res
+		var items []string
+		timeout := false
+		nok := 0
+		for len(results) < 12 {
+			r := c20Call(d.Decode)
+			results = append(results, r)
+			items = append(items, r.coq())
+			if r.Kind == "timeout" {
+				timeout = true
+			}
+			if r.Kind != "ok" {
+				break
+			}
+			nok++
+		}
+		last := results[len(results)-1].Kind
+		coq := fmt.Sprintf("(CStream (mkLim %d %d %d %d) %s [%s] %s)", i.Lim[0], i.Lim[1], i.Lim[2], i.Lim[3], c20Bytes(string(i.Stream)),
+			strings.Join(items, "; "), vh.CoqBool(timeout))
+		tags := []string{"stream-ends-" + last, fmt.Sprintf("stream-decoded-%d", nok)}
+		if i.Tag != "" {
+			tags = append(tags, i.Tag)
+		}
+		return vh.Out{Observed: map[string]interface{}{"results": results}, Coq: coq, NonTrivial: nok > 0, Tags: tags}
+	}
+	panic("unknown kind " + i.Kind)
+}
+
+// ---------------------------------------------------------------- generation
+
+var c20Keys = []string{"a", "b", "k1", "foo", "foo-bar", "x-9", "z"}
+var c20BadKeys = []string{"", "A", "a b", "-a", "a-", "a--b", "9a", "a:b", "é"}
+
+func c20Str(r *vh.Rand) string {
+	line := func() string {
+		switch r.Intn(8) {
+		case 0:
+			return ""
+		case 1:
+			return r.Pick([]string{"-", "- x", "  -", "  ", " ", "a:", "a: b", "  a: b", "    x", ":", "\t", "é", "日本", "-\u00a0"})
+		}
+		return r.Str("ab -:xyz09 ", 1, 8)
+	}
+	switch r.Intn(10) {
+	case 0, 1, 2:
+		n := r.Range(2, 4)
+		ls := make([]string, n)
+		for k := range ls {
+			ls[k] = line()
+		}
+		return strings.Join(ls, "\n")
+	case 3:
+		return r.Pick([]string{"", "\n", "\n\n", "a\n", "\na", " ", "a\n\nb", "  - x\n  - y", "a:\n  b: c"})
+	}
+	return line()
+}
+
+// normalised = survives the text form (non-empty lists/maps, valid distinct keys)
+func c20Value(r *vh.Rand, depth int, normalised bool) c20Val {
+	k := r.Intn(10)
+	if depth <= 0 || k < 5 {
+		return c20Val{K: "s", S: c20Str(r)}
+	}
+	if k < 8 {
+		n := r.Range(1, 3)
+		if !normalised && r.Chance(1, 4) {
+			n = 0
+		}
+		l := make([]c20Val, n)
+		for j := range l {
+			l[j] = c20Value(r, depth-1, normalised)
+		}
+		return c20Val{K: "l", L: l}
+	}
+	n := r.Range(1, 3)
+	if !normalised && r.Chance(1, 4) {
+		n = 0
+	}
+	m := map[string]c20Val{}
+	for j := 0; j < n; j++ {
+		key := r.Pick(c20Keys)
+		if !normalised && r.Chance(1, 5) {
+			key = r.Pick(c20BadKeys)
+		}
+		m[key] = c20Value(r, depth-1, normalised)
+	}
+	return c20Val{K: "m", M: m}
+}
+
+func c20HeaderMap(r *vh.Rand, normalised bool) map[string]c20Val {
+	h := map[string]c20Val{}
+	n := r.Range(0, 4)
+	for j := 0; j < n; j++ {
+		h[r.Pick([]string{"aa", "extra", "foo", "h-1", "plugs", "x", "zz-top"})] = c20Value(r, r.Range(0, 3), normalised)
+	}
+	return h
+}
+
+func c20S(s string) c20Val { return c20Val{K: "s", S: s} }
+
+// a signable input: type, full header map, body
+func c20Signable(r *vh.Rand, normalised bool) (string, map[string]c20Val, []byte) {
+	h := c20HeaderMap(r, normalised)
+	typ := r.Pick([]string{"test-only", "test-only", "test-only-2", "test-only-seq", "test-only-no-authority-pk", "account", "test-only-rev"})
+	id := r.Str("abcdefgh0123456789", 1, 6)
+	switch typ {
+	case "test-only":
+		h["primary-key"] = c20S(id)
+	case "test-only-2":
+		h["pk1"], h["pk2"] = c20S(id), c20S(r.Str("xyz", 1, 3))
+	case "test-only-seq":
+		h["n"], h["sequence"] = c20S(id), c20S(strconv.Itoa(r.Range(1, 30)))
+	case "test-only-no-authority-pk":
+		h["pk"] = c20S(id)
+	case "test-only-rev":
+		h["h"] = c20S(id)
+	case "account":
+		h["account-id"], h["display-name"], h["validation"], h["timestamp"] = c20S(id), c20S("Name "+id), c20S("unproven"), c20S("2020-01-02T03:04:05Z")
+	}
+	if typ != "test-only-no-authority-pk" {
+		h["authority-id"] = c20S(r.Pick([]string{"canonical", "dev1", "a"}))
+	}
+	if r.Chance(1, 2) {
+		h["revision"] = c20S(strconv.Itoa(r.Range(0, 12)))
+	}
+	var body []byte
+	switch r.Intn(6) {
+	case 0:
+		body = []byte(c20Str(r))
+	case 1:
+		body = []byte(r.Pick([]string{"\n", "\n\n", "body\n\nmore", "x\n", "\n\nx", "type: fake\n\nsig", "é\n"}))
+	case 2:
+		body = []byte(r.Str("abc \n:-", 1, 40))
+	}
+	return typ, h, body
+}
+
+func c20Mutate(r *vh.Rand, b []byte) []byte {
+	out := append([]byte{}, b...)
+	n := r.Range(1, 3)
+	for k := 0; k < n && len(out) > 0; k++ {
+		p := r.Intn(len(out))
+		switch r.Intn(8) {
+		case 0:
+			out = out[:p]
+		case 1:
+			out[p] ^= byte(1 << uint(r.Intn(8)))
+		case 2:
+			out = append(out[:p], out[p+1:]...)
+		case 3:
+			ins := r.Pick([]string{"\n", "\n\n", " ", "  ", "-", ":", "  -", "    ", "a: b\n", "\xff", "body-length: 3\n", "body-length: -1\n"})
+			out = append(out[:p], append([]byte(ins), out[p:]...)...)
+		case 4: // change indentation of the line containing p
+			s := p
+			for s > 0 && out[s-1] != '\n' {
+				s--
+			}
+			if r.Bool() {
+				out = append(out[:s], append([]byte(r.Pick([]string{" ", "  "})), out[s:]...)...)
+			} else if out[s] == ' ' {
+				out = append(out[:s], out[s+1:]...)
+			}
+		case 5: // duplicate a line
+			s, e := p, p
+			for s > 0 && out[s-1] != '\n' {
+				s--
+			}
+			for e < len(out) && out[e] != '\n' {
+				e++
+			}
+			ln := append([]byte{'\n'}, out[s:e]...)
+			out = append(out[:e], append(ln, out[e:]...)...)
+		case 6:
+			out[p] = byte(r.Intn(256))
+		case 7:
+			out[p] = '\n'
+		}
+	}
+	return out
+}
+
+func c20FormatHead(h map[string]c20Val) []byte {
+	var buf bytes.Buffer
+	keys := make([]string, 0, len(h))
+	for k := range h {
+		keys = append(keys, k)
+	}
+	sort.Strings(keys)
+	for _, k := range keys {
+		appendEntry(&buf, k+":", h[k].iface(), 0)
+	}
+	if buf.Len() == 0 {
+		return nil
+	}
+	return buf.Bytes()[1:]
+}
+
+func c20Enum(alpha string, maxLen int) []string {
+	out := []string{""}
+	prev := []string{""}
+	for l := 1; l <= maxLen; l++ {
+		var cur []string
+		for _, p := range prev {
+			for k := 0; k < len(alpha); k++ {
+				cur = append(cur, p+string(alpha[k]))
+			}
+		}
+		out = append(out, cur...)
+		prev = cur
+	}
+	return out
+}
+
+func c20Stream(encs [][]byte) []byte {
+	var buf bytes.Buffer
+	enc := NewEncoder(&buf)
+	for _, e := range encs {
+		enc.WriteEncoded(e)
+	}
+	return buf.Bytes()
+}
+
+func c20Gen(r *vh.Rand, tier string, n int) []c20In {
+	if n == 0 {
+		n = 400
+	}
+	var ins []c20In
+	// formatter: random trees, also outside the normal form
+	for k := 0; k < n/4; k++ {
+		v := c20Value(r, r.Range(0, 4), r.Chance(2, 3))
+		ins = append(ins, c20In{Kind: "fmt", V: &v})
+	}
+	// parser: every string of length <= L over a small alphabet of the grammar's significant characters
+	maxLen := 4
+	if tier == "thorough" {
+		maxLen = 6
+	}
+	for _, s := range c20Enum("a: -\n", maxLen) {
+		ins = append(ins, c20In{Kind: "parse", Head: []byte(s), Tag: "parse-enum"})
+	}
+	for _, s := range []string{"a:\n  -\n    -\n      - x", "a:\n  b:\n    c:\n      d", "a:\n  -", "a:\n  - ", "a:\n  b:", "a:\n  b", "a:\n    ", "a:\n     x", "a:\n   x",
+		"a:\n  - x\n  y: z", "a:\n  y: z\n  - x", "a:\n  y: z\n  y: w", "a: 1\na: 2", "a:\n  -\n      x\n      y\n  - z", "a:\n  -\n    b: c\n    d:\n      - e",
+		"a:\n  -  x", "a:\n  --", "a:\n  -x", "a:x", "a:", ":", "a", "\xff: a", "a: \xff", "a: \xc0\x80", "a: \xed\xa0\x80", "a: \xf4\x90\x80\x80", "a: \xe2\x82\xac\xf0\x9f\x98\x80"} {
+		ins = append(ins, c20In{Kind: "parse", Head: []byte(s), Tag: "parse-edge"})
+	}
+	for k := 0; k < n/2; k++ {
+		head := c20FormatHead(c20HeaderMap(r, r.Chance(3, 4)))
+		tag := "parse-formatted"
+		if r.Chance(2, 3) {
+			head = c20Mutate(r, head)
+			tag = "parse-mutated"
+		}
+		ins = append(ins, c20In{Kind: "parse", Head: head, Tag: tag})
+	}
+	for k := 0; k < n/8; k++ {
+		b := make([]byte, r.Range(0, 24))
+		for j := range b {
+			if r.Bool() {
+				b[j] = byte(r.Intn(256))
+			} else {
+				b[j] = "a: -\n"[r.Intn(5)]
+			}
+		}
+		ins = append(ins, c20In{Kind: "parse", Head: b, Tag: "parse-random"})
+	}
+	// whole assertions: sign, encode, decode with both decoders
+	var encs [][]byte
+	for k := 0; k < n/4; k++ {
+		normalised := r.Chance(5, 6)
+		typ, h, body := c20Signable(r, normalised)
+		tag := "codec-normalised"
+		if !normalised {
+			tag = "codec-any-tree"
+		}
+		ins = append(ins, c20In{Kind: "codec", Type: typ, H: h, Body: body, Tag: tag})
+		if a, err := c20Sign(typ, h, body); err == nil {
+			encs = append(encs, Encode(a))
+		}
+	}
+	// Decode on damaged encodings and on arbitrary bytes
+	for k := 0; k < n/4 && len(encs) > 0; k++ {
+		e := encs[r.Intn(len(encs))]
+		ins = append(ins, c20In{Kind: "decode", Enc: c20Mutate(r, e), Tag: "decode-mutated"})
+	}
+	for k := 0; k < n/16; k++ {
+		b := make([]byte, r.Range(0, 40))
+		for j := range b {
+			b[j] = byte(r.Intn(256))
+		}
+		ins = append(ins, c20In{Kind: "decode", Enc: b, Tag: "decode-random"})
+	}
+	for _, s := range []string{"", "\n", "\n\n", "\n\n\n", "\n\n\n\n", "a: b\n\nsig", "type: test-only\n\n", "type: test-only\nauthority-id: a\nprimary-key: k\nsign-key-sha3-384: x\n\nsig"} {
+		ins = append(ins, c20In{Kind: "decode", Enc: []byte(s), Tag: "decode-edge"})
+	}
+	// streams against stressed limits
+	for k := 0; k < n/4 && len(encs) > 0; k++ {
+		m := r.Range(1, 3)
+		var parts [][]byte
+		for j := 0; j < m; j++ {
+			parts = append(parts, encs[r.Intn(len(encs))])
+		}
+		stream := c20Stream(parts)
+		tag := "stream-valid"
+		switch r.Intn(6) {
+		case 0:
+			stream = c20Mutate(r, stream)
+			tag = "stream-mutated"
+		case 1:
+			stream = stream[:r.Intn(len(stream)+1)]
+			tag = "stream-truncated"
+		}
+		buf := []int{8, 16, 50, 64, 100, 128, 512, 4096}[r.Intn(8)]
+		pick := func(base int) int {
+			switch r.Intn(6) {
+			case 0:
+				return buf
+			case 1:
+				return buf << uint(r.Range(1, 6))
+			case 2:
+				return base + r.Range(-3, 3)
+			case 3:
+				return r.Range(1, 2*base+10)
+			}
+			return 1 << 20
+		}
+		first := parts[0]
+		headEnd := bytes.Index(first, nlnl) + 2
+		sigStart := bytes.LastIndex(first, nlnl) + 2
+		bodyLen := sigStart - 2 - headEnd
+		if bodyLen < 0 {
+			bodyLen = 0
+		}
+		lim := []int{buf, pick(headEnd), pick(bodyLen), pick(len(first) - sigStart + 1)}
+		if lim[2] < 1 {
+			lim[2] = 1
+		}
+		if lim[1] < 1 {
+			lim[1] = 1
+		}
+		if lim[3] < 1 {
+			lim[3] = 1
+		}
+		ins = append(ins, c20In{Kind: "stream", Lim: lim, Stream: stream, Tag: tag})
+	}
+	for _, bl := range []string{"-1", "-0", "+3", "03", "3", "x", "99999999999999999999", "2097153", "-5", "-60", "-100000", "-9223372036854775808"} {
+		s := "type: test-only\nauthority-id: a\nprimary-key: k\nbody-length: " + bl + "\nsign-key-sha3-384: Jv8_JiHiIzJVcO9M55pPdqSDWUvuhfDIBJUS-3VW7F_idjix7Ffn5qMxB21ZQuij\n\nabc\n\nAXNpZw==\n"
+		ins = append(ins, c20In{Kind: "stream", Lim: []int{4096, MaxHeadersSize, MaxBodySize, MaxSignatureSize}, Stream: []byte(s), Tag: "stream-body-length-" + bl})
+	}
+	return ins
+}
+
+func TestVerifC20(t *testing.T) { vh.Run(c20Gen, c20Exec) }
